@@ -28,14 +28,15 @@ for w, unw in ((8, 132), (16, 68), (32, 36)):
     GROUPS.append(g_)
 GROUPS += [g for g in _c19.GROUPS if "get_num" in g.name]
 LEVEL = "proof"
-EXPLANATION = ("DFCC loop contracts on six object-file readers (read_bin, read_ti_txt, read_wdc, read_hex, read_srec, read_uf2) over an unbounded arbitrary file: every loop has a discharged variant "
-               "(a counter bounded by a value from the file, or the stream measure that only decreases while input is consumed, so no loop iterates again at end of file) and every generated bounds/pointer "
-               "obligation holds; plus bounded model checking of get_string_at_offset (any file content, buffers up to 130 bytes) and of the command parsers. "
-               "The ELF/Mach-O/Amiga readers' record loops and the interactive command loop are not under contract, so the property is proved for these functions only.")
-TRUSTED = ["getc/fopen/fseek/ftell/fread replaced by a stream contract returning an arbitrary byte or EOF per call (EOF sticky, files shorter than 2^28 characters for the character readers and shorter than 2 GiB - 512 for read_uf2)",
+EXPLANATION = ("DFCC loop contracts on all nine object-file readers (read_bin, read_ti_txt, read_wdc, read_hex, read_srec, read_uf2, read_elf, read_macho, read_amiga) over an arbitrary file of any length: "
+               "every loop has a discharged variant (a counter bounded by a value from the file, the stream measure that only decreases while input is consumed, or - for the hunk reader, which seeks - "
+               "the distance of the read position from the end of the file), every generated bounds/pointer obligation holds, and a second pass shows every loop body reachable under its contract; "
+               "plus bounded model checking of print8/16/32 (unwinding bound = termination obligation), of get_string_at_offset and of the command parsers. "
+               "The interactive command loop of main/naken_util.cpp is not under contract, so the property is proved for these functions only.")
+TRUSTED = ["getc/fopen/fseek/ftell/fread replaced by a stream contract returning an arbitrary byte or EOF per call (EOF sticky, files shorter than 2^28 characters; file lengths reported by ftell below 2 GiB - 512); the hunk reader uses a position-aware file contract (seek/tell/eof indicator)", "FileIo::get_string_at_offset is replaced by its contract at the ELF/Mach-O call sites (its body is discharged, bounded, by C17/get_string_at_offset); strcmp/strncmp on section names return an arbitrary but repeatable result",
            "Memory::write8/clear are contracts in the reader harnesses (the page walk is under contract in C05)"]
 MANIFEST = {
-    "text": "Unbounded termination and memory-safety contracts (DFCC loop contracts with variants) for the hex, srec, ti-txt, wdc, uf2 and raw-binary readers on any file content; buffer-safety of the shared name reader used by the ELF/Mach-O loaders and crash-freedom of write/write16/write32 and the number parsers on malformed commands (bounded).",
-    "note": "The elf, amiga and macho readers and the interactive loop are not covered; see evidence.bounded_checks and DESIGN gap.",
-    "technique": "CBMC DFCC loop contracts (invariants + decreases) on fileio/read_hex.cpp, read_srec.cpp, read_ti_txt.cpp, read_wdc.cpp, read_uf2.cpp, read_bin.cpp; bounded model checking (complete unwinding) of fileio/FileIo.cpp and core/UtilContext.cpp",
+    "text": "Unbounded termination and memory-safety contracts (DFCC loop contracts with variants) for all nine object-file readers (hex, srec, ti-txt, wdc, uf2, raw binary, elf, mach-o, amiga hunk) on any file content; termination of print8/16/32 and of the write commands (bounded ranges / strings); buffer-safety of the shared name reader used by the ELF/Mach-O loaders and crash-freedom of write/write16/write32 and the number parsers on malformed commands (bounded).",
+    "note": "The interactive loop and the option parsing of main/naken_util.cpp are covered only by the bounded C19 main() group (thorough tier); loops counting to a 32-bit header field are proved terminating, not fast; see evidence.bounded_checks and DESIGN gap.",
+    "technique": "CBMC DFCC loop contracts (invariants + decreases) on fileio/read_hex.cpp, read_srec.cpp, read_ti_txt.cpp, read_wdc.cpp, read_uf2.cpp, read_bin.cpp, read_elf.cpp, read_macho.cpp, read_amiga.cpp; bounded model checking (complete unwinding) of fileio/FileIo.cpp and core/UtilContext.cpp",
 }
